@@ -168,14 +168,14 @@ Definition reaches_handler (srv : option site) (r : request) : bool :=
 Inductive logrec := LogException | LogRenderFailed | LogDiscarded | LogTmError | LogLateResponse | LogUnmodelled.
 Definition exception_to_value (e : exc) : value * list logrec :=
   match e with
-  | ERenderable (TMReturn VNone) => (VMsg (mk_msg INTERNAL_SERVER_ERROR []), [LogRenderFailed])
-  | ERenderable (TMReturn v) => (v, [])
+  | ERenderable (TMReturn (VMsg m)) => (VMsg m, [])
+  | ERenderable (TMReturn _) => (VMsg (mk_msg INTERNAL_SERVER_ERROR []), [LogRenderFailed])   (* not isinstance(msg, Message) -> ValueError *)
   | ERenderable TMRaises => (VMsg (mk_msg INTERNAL_SERVER_ERROR []), [LogRenderFailed])
   | EOther => (VMsg (mk_msg INTERNAL_SERVER_ERROR []), [LogException])
   end.
 
 (* the decision table, end to end: the message that reaches the token manager as the final response
-   (None: nothing does — only for values that are not Messages coming out of to_message, see finding in notes) *)
+   (None only for resources with their own render_to_pipe that do not produce one) *)
 Definition final_message (srv : option site) (r : request) : option msg :=
   match respond srv r with
   | RAdd (VMsg m) true :: _ => Some m
